@@ -33,6 +33,8 @@ def run(rep, repo, tier):
         rep.rule(k, v)
     rep.assumptions += ['A4 numpy/random contracts (randint excludes high; choice(replace=False) gives distinct members)', 'statistical claims beyond the API contract are not decided']
     check_stale_uses(rep, repo)
+    from ..defined import check_defined
+    check_defined(rep, repo, 'C08.R1', [repo.method(c_, 'generate_instances', required=False) for c_ in GRAMMAR] + [repo.method('Generator', '__init__', required=False)], 'instance generation')
     for cls in GRAMMAR:
         for twopl in (True, False):
             try:
